@@ -4,6 +4,7 @@ import (
 	"fmt"
 	"go/token"
 	"os"
+	"sort"
 	"strings"
 
 	"golang.org/x/tools/go/ssa"
@@ -31,12 +32,13 @@ func ruleC08(r *Report) {
 	// bounds in the selector
 	a := NewAnalysis(p)
 	br := &BoundsRules{R: r, A: a, S: sc}
-	sel := encCertSelector(p)
+	sel, _ := encCertSelector(p)
 	br.Check(append([]*ssa.Function{sel}, stringHelpersOf(p, sel)...), "C08.cert-index", boundsOpts{OnlySchemaDerived: true})
 }
 
 // encCertSelector: role = the IdpAuthnRequest method returning (*x509.Certificate, error) that reads KeyDescriptors.
-func encCertSelector(p *Prog) *ssa.Function {
+// When the selection is written out in the emitting function itself, that function is the selector (inline == true).
+func encCertSelector(p *Prog) (sel *ssa.Function, inline bool) {
 	for _, fn := range p.modFns {
 		if !p.InLibrary(fn) || !isMethodOf(fn, "IdpAuthnRequest") || fn.Signature.Results().Len() != 2 {
 			continue
@@ -44,15 +46,46 @@ func encCertSelector(p *Prog) *ssa.Function {
 		if !typeIs(fn.Signature.Results().At(0).Type(), "crypto/x509", "Certificate") {
 			continue
 		}
-		return fn
+		return fn, false
 	}
-	panic(unresolved{"role encryption-certificate selector (IdpAuthnRequest method returning (*x509.Certificate, error))"})
+	mk := p.MustFunc("saml", "IdpAuthnRequest", "MakeAssertionEl")
+	if len(methodCallsOn(mk, "crypto/x509.ParseCertificate")) > 0 {
+		return mk, true
+	}
+	panic(unresolved{"role encryption-certificate selector (IdpAuthnRequest method returning (*x509.Certificate, error), or the certificate parsed in MakeAssertionEl itself)"})
+}
+
+// isCertString: v is (a choice among) certificate strings read from key descriptors, possibly selected by a string helper.
+func isCertString(fc *FuncCtx, v ssa.Value, depth int, seen map[ssa.Value]bool) bool {
+	if v == nil || seen[v] || depth > 3 {
+		return false
+	}
+	seen[v] = true
+	switch x := v.(type) {
+	case *ssa.Phi:
+		for _, e := range x.Edges {
+			if isCertString(fc, e, depth, seen) {
+				return true
+			}
+		}
+		return false
+	case *ssa.Call:
+		if sc := x.Call.StaticCallee(); sc != nil && len(sc.Blocks) > 0 && fc.A.P.InLibrary(sc) && sc.Signature.Results().Len() == 1 && isStringType(sc.Signature.Results().At(0).Type()) {
+			sub := fc.A.Ctx(sc)
+			for _, ret := range sub.Returns() {
+				if isCertString(sub, ret.Results[0], depth+1, seen) {
+					return true
+				}
+			}
+		}
+	}
+	return strings.Contains(fc.AP(v), "X509Certificates")
 }
 
 func checkDowngrade(r *Report, p *Prog) {
 	rule := "C08.downgrade"
 	mk := p.MustFunc("saml", "IdpAuthnRequest", "MakeAssertionEl")
-	sel := encCertSelector(p)
+	sel, inlineSel := encCertSelector(p)
 	a := NewAnalysis(p)
 	B := a.B
 	fc := a.Ctx(mk)
@@ -67,16 +100,43 @@ func checkDowngrade(r *Report, p *Prog) {
 			}
 		}
 	}
-	if selCall == nil {
+	if selCall == nil && !inlineSel {
 		r.Bad(rule, p.FnName(mk)+": certificate selector consulted", p.Pos(mk.Pos()), "the function that emits the assertion never asks for the SP's encryption certificate")
 		return
 	}
-	errAP := fc.AP(selCall) + "#1"
-	nilA := "isnil(" + errAP + ")"
-	var notExistA string
-	for name, ai := range a.Atoms {
-		if ai.Kind == "eq" && strings.Contains(name, errAP) && strings.Contains(name, "os.ErrNotExist") {
-			notExistA = name
+	var errAP, nilA, notExistA string
+	var certCalls []*ssa.Call // inline form: the decode/parse calls whose failure must stop the response
+	if inlineSel {
+		// "no encryption key" is the emptiness of the chosen certificate string; "a certificate was selected" is
+		// the success of x509.ParseCertificate
+		_ = fc.NotAcceptFormula()
+		var names []string
+		for name := range a.Atoms {
+			names = append(names, name)
+		}
+		sort.Strings(names)
+		for _, name := range names {
+			ai := a.Atoms[name]
+			if ai.Kind == "empty" && len(ai.Vals) > 0 && isCertString(fc, ai.Vals[0], 0, map[ssa.Value]bool{}) {
+				// the last test of the choice: the one the cleartext store is guarded by
+				notExistA = name
+				for _, b := range mk.Blocks {
+					_ = b
+				}
+			}
+		}
+		for _, c := range methodCallsOn(mk, "crypto/x509.ParseCertificate") {
+			nilA = "isnil(" + fc.AP(c) + "#1)"
+			certCalls = append(certCalls, c)
+		}
+		certCalls = append(certCalls, methodCallsOn(mk, "(*encoding/base64.Encoding).DecodeString")...)
+	} else {
+		errAP = fc.AP(selCall) + "#1"
+		nilA = "isnil(" + errAP + ")"
+		for name, ai := range a.Atoms {
+			if ai.Kind == "eq" && strings.Contains(name, errAP) && strings.Contains(name, "os.ErrNotExist") {
+				notExistA = name
+			}
 		}
 	}
 	// stores to AssertionEl: plaintext stores (value is an Assertion.Element() build) vs ciphertext; looked for in the
@@ -113,6 +173,16 @@ func checkDowngrade(r *Report, p *Prog) {
 		if plain {
 			cons := p.FnName(mk) + ": cleartext assertion emitted only when the selector said 'no encryption key' (os.ErrNotExist)"
 			ok2 := notExistA != "" && B.Implies(cnd, B.Var(notExistA))
+			if inlineSel {
+				// any test "the chosen certificate string is empty" the store is guarded by
+				ok2 = false
+				for _, name := range B.Support(cnd) {
+					ai := a.Atoms[name]
+					if ai != nil && ai.Kind == "empty" && len(ai.Vals) > 0 && isCertString(fc, ai.Vals[0], 0, map[ssa.Value]bool{}) && B.Implies(cnd, B.Var(name)) {
+						ok2 = true
+					}
+				}
+			}
 			why := "the cleartext assertion is emitted under " + a.canon(cnd)
 			r.Check(ok2, rule, cons, p.InstrPos(st), "guard err == os.ErrNotExist", why)
 		} else {
@@ -121,7 +191,18 @@ func checkDowngrade(r *Report, p *Prog) {
 		}
 	})
 	// any other selector error is a reject
-	if B.HasVar(nilA) && notExistA != "" {
+	if inlineSel {
+		rej := fc.RejectFormula()
+		for _, c := range certCalls {
+			nm := "isnil(" + fc.AP(c) + "#1)"
+			okR := B.HasVar(nm) && B.Implies(B.And(B.Not(B.Var(nm)), fc.Cond(c.Block())), rej)
+			r.Check(okR, rule, p.FnName(mk)+": a selector error other than ErrNotExist is reported", p.InstrPos(c), "err != nil => reject",
+				"a certificate error (undecodable or unparsable certificate) does not stop the response")
+		}
+		if len(certCalls) == 0 {
+			r.Bad(rule, p.FnName(mk)+": selector error handling", p.Pos(mk.Pos()), "no certificate is parsed")
+		}
+	} else if B.HasVar(nilA) && notExistA != "" {
 		rej := fc.RejectFormula()
 		other := B.And(B.Not(B.Var(nilA)), B.Not(B.Var(notExistA)))
 		other = B.And(other, fc.Cond(selCall.Block()))
@@ -138,6 +219,9 @@ func checkDowngrade(r *Report, p *Prog) {
 	fs.ensureConds()
 	r.Fn(p.FnName(sel))
 	for _, ret := range fs.Returns() {
+		if inlineSel {
+			break
+		}
 		ev := Resolve(ret.Results[1])
 		ld, ok := ev.(*ssa.UnOp)
 		if !ok {
@@ -169,10 +253,27 @@ func checkDowngrade(r *Report, p *Prog) {
 	judge := func(fn *ssa.Function, fcx *FuncCtx, ap string, at *ssa.BasicBlock) {
 		n++
 		cnd := fcx.Cond(at)
+		// what was already decided when the scan started is not a condition of the scan
+		base := B2.True
+		if hs := loopHeadersOf(at); len(hs) > 0 && inlineSel {
+			outer := hs[0]
+			for _, h := range hs {
+				if underLoop(h, outer) && h != outer {
+					continue
+				}
+				if underLoop(outer, h) || h.Index < outer.Index {
+					outer = h
+				}
+			}
+			base = fcx.Cond(outer)
+		}
 		var extra []string
 		for _, name := range B2.Support(cnd) {
 			ai := a2.Atoms[name]
 			if ai == nil {
+				continue
+			}
+			if base != B2.True && (B2.Implies(base, B2.Var(name)) || B2.Implies(base, B2.Not(B2.Var(name)))) {
 				continue
 			}
 			j := strings.Join(ai.Args, " ")
